@@ -245,6 +245,24 @@ fn push_stub<T, A: std::alloc::Allocator>(v: &mut Vec<T, A>, x: T) {
     }
 }
 
+/// Environment stub for `Vec::new`: same empty vector, but with room for 8
+/// elements reserved up front (one concrete allocation), so that together
+/// with `push_stub` no re-allocation with symbolic sizes is ever modelled.
+fn vec_new_stub<T>() -> Vec<T> {
+    Vec::with_capacity(8)
+}
+
+/// Environment stub for `Vec::with_capacity_in`: whatever capacity (<= 8) is
+/// asked for, one buffer of 8 slots is allocated -- a concrete size instead
+/// of a symbolic one.  Asking for more fails the harness.
+fn with_capacity_stub<T, A: std::alloc::Allocator>(cap: usize, alloc: A)
+    -> Vec<T, A> {
+    assert!(cap <= 8, "harness: with_capacity stub asked for more than 8");
+    let mut v = Vec::new_in(alloc);
+    v.reserve_exact(8);
+    v
+}
+
 fn collect2(order_sorted: bool) {
     let a = any_b8();
     let b = any_b8();
@@ -385,6 +403,7 @@ fn binop_body<const N: usize, const M: usize>() -> (bool, bool) {
 #[kani::proof]
 #[kani::unwind(6)]
 #[kani::stub(std::vec::Vec::push, push_stub)]
+#[kani::stub(std::vec::Vec::new, vec_new_stub)]
 fn chain_ops_1x1() {
     let (ina, inb) = binop_body::<1, 1>();
     kani::cover!(ina && inb);
@@ -773,6 +792,17 @@ use rpki::repository::resources::verif::verif_from_iter_unsorted;
 /// blocks as the fast path leaves them (ascending, disjoint, non-adjacent),
 /// `block` = an arbitrary block that starts before the last one, no further
 /// blocks.  That is exactly "collect [a, b, c] with c out of order".
+/// Stub for the large-input branch of std's unstable sort: `sort` itself
+/// uses insertion sort for slices of up to 20 elements and never calls
+/// `ipnsort` for them, but symbolic execution explores the call.  With at
+/// most 8 elements (the `push_stub` capacity) reaching it is impossible;
+/// the stub fails the harness if it happens anyway.
+fn ipnsort_unreachable<T, F: FnMut(&T, &T) -> bool>(
+    _v: &mut [T], _is_less: &mut F,
+) {
+    panic!("ipnsort reached for a slice of at most 8 elements")
+}
+
 fn unsorted_handover_body() -> usize {
     let a = any_b8();
     let b = any_b8();
@@ -792,7 +822,7 @@ fn unsorted_handover_body() -> usize {
     n
 }
 
-/// @tier exp
+/// @tier quick thorough
 /// @fn rpki::repository::resources::chain::from_iter_unsorted
 ///   rpki::repository::resources::chain::merge_or_add_block
 ///   rpki::repository::resources::chain::Block::sum
@@ -805,10 +835,16 @@ fn unsorted_handover_body() -> usize {
 ///   the union of the blocks -- in particular when a later block bridges two
 ///   earlier ones (10-20, 30-40, then 15-35)
 /// @assume the first two blocks are in the state the sorted fast path of
-///   from_iter leaves them (ascending, disjoint, non-adjacent)
-/// @out more than three blocks; the sorted fast path itself
+///   from_iter leaves them (ascending, disjoint, non-adjacent) -- which
+///   collect_sorted_2/3 decide; stubs: ipnsort -> panic (std's sort uses
+///   insertion sort below 21 elements), Vec::new / Vec::push as in
+///   chain_difference_2x2
+/// @out more than three blocks
 #[kani::proof]
 #[kani::unwind(6)]
+#[kani::stub(core::slice::sort::unstable::ipnsort, ipnsort_unreachable)]
+#[kani::stub(std::vec::Vec::push, push_stub)]
+#[kani::stub(std::vec::Vec::new, vec_new_stub)]
 fn collect_third_block_out_of_order() {
     let n = unsorted_handover_body();
     kani::cover!(n == 1);
@@ -1040,4 +1076,259 @@ fn as_verify_issued_refuse_mixed() {
     let (s21, _) = issued_refuse_body::<2, 1>();
     kani::cover!(s12);
     kani::cover!(s21);
+}
+
+fn difference_body<const N: usize, const M: usize>() -> (bool, bool) {
+    let (a, aa) = any_chain::<N>();
+    let (b, bb) = any_chain::<M>();
+    let x: u8 = kani::any();
+    let ina = member(&aa, x);
+    let inb = member(&bb, x);
+    let d = a.difference(&b);
+    assert!(canonical(d.as_slice()));
+    assert_eq!(member(d.as_slice(), x), ina && !inb);
+    std::mem::forget((d, a, b));
+    (ina, inb)
+}
+
+/// @tier quick thorough
+/// @fn rpki::repository::resources::chain::Chain::difference
+/// @bounds OwnedChain<B8> (Item = u8); operands = arbitrary canonical chains
+///   of exactly 2 and 2 blocks; one witness item; unwind 8
+/// @says the difference of two canonical chains is a canonical chain
+///   denoting exactly the set difference (all thirteen overlap cases of the
+///   walk, including blocks touching 0 and 255)
+/// @assume Vec::new / Vec::push are replaced by stubs that reserve 8 slots
+///   once and store in place (same observable behaviour for <= 8 elements;
+///   std's amortised growth is what the solver cannot get through)
+#[kani::proof]
+#[kani::unwind(8)]
+#[kani::stub(std::vec::Vec::push, push_stub)]
+#[kani::stub(std::vec::Vec::new, vec_new_stub)]
+fn chain_difference_2x2() {
+    let (ina, inb) = difference_body::<2, 2>();
+    kani::cover!(ina && !inb);
+    kani::cover!(ina && inb);
+}
+
+/// @tier quick thorough
+/// @fn rpki::repository::resources::chain::Chain::difference
+/// @bounds operands of exactly (1,1), (2,1), (1,2), (0,2), (2,0) blocks
+/// @says see chain_difference_2x2 (smaller operands and the empty set)
+/// @assume Vec::new / Vec::push stubs as in chain_difference_2x2
+#[kani::proof]
+#[kani::unwind(7)]
+#[kani::stub(std::vec::Vec::push, push_stub)]
+#[kani::stub(std::vec::Vec::new, vec_new_stub)]
+fn chain_difference_small() {
+    let (a11, b11) = difference_body::<1, 1>();
+    let _ = difference_body::<2, 1>();
+    let _ = difference_body::<1, 2>();
+    let _ = difference_body::<0, 2>();
+    let _ = difference_body::<2, 0>();
+    kani::cover!(a11 && !b11);
+}
+
+/// @tier thorough
+/// @fn rpki::repository::resources::chain::Chain::difference
+/// @bounds operands of exactly 3 and 2 blocks, and 2 and 3; unwind 9
+/// @says see chain_difference_2x2
+/// @assume Vec::new / Vec::push stubs as in chain_difference_2x2
+#[kani::proof]
+#[kani::unwind(9)]
+#[kani::stub(std::vec::Vec::push, push_stub)]
+#[kani::stub(std::vec::Vec::new, vec_new_stub)]
+fn chain_difference_3x2_t() {
+    let (ina, inb) = difference_body::<3, 2>();
+    let _ = difference_body::<2, 3>();
+    kani::cover!(ina && !inb);
+}
+
+fn trim_body<const N: usize, const M: usize>() -> (bool, bool) {
+    let (a, aa) = any_chain::<N>();
+    let (b, bb) = any_chain::<M>();
+    let x: u8 = kani::any();
+    let ina = member(&aa, x);
+    let inb = member(&bb, x);
+    let unchanged = match a.trim(&b) {
+        Ok(()) => {
+            // "unchanged": the intersection equals self
+            assert_eq!(ina, ina && inb);
+            true
+        }
+        Err(t) => {
+            assert!(canonical(t.as_slice()));
+            assert_eq!(member(t.as_slice(), x), ina && inb);
+            std::mem::forget(t);
+            false
+        }
+    };
+    std::mem::forget((a, b));
+    (ina && inb, unchanged)
+}
+
+/// @tier exp
+/// @says trim 1x1 with Vec stubs: still out of memory (slice-to-vec copy of symbolic length inside trim)
+#[kani::proof]
+#[kani::unwind(6)]
+#[kani::stub(std::vec::Vec::push, push_stub)]
+#[kani::stub(std::vec::Vec::new, vec_new_stub)]
+#[kani::stub(std::vec::Vec::with_capacity_in, with_capacity_stub)]
+fn probe_trim_1x1() {
+    let (both, unchanged) = trim_body::<1, 1>();
+    kani::cover!(both && !unchanged);
+    kani::cover!(unchanged);
+}
+
+
+/// @tier quick thorough
+/// @fn rpki::repository::resources::asres::AsBlocks::difference
+///   rpki::repository::resources::chain::Chain::difference
+///   rpki::repository::resources::asres::AsBlocks::contains_asn
+/// @bounds full-width AS numbers; operands = arbitrary canonical AS sets of
+///   exactly 2 blocks each; one witness ASN; unwind 8
+/// @says the difference of two AS sets is a canonical AS set (single ids
+///   stored as ids) denoting exactly the set difference, including at AS 0
+///   and AS 4294967295
+/// @assume Vec::new / Vec::push stubs as in chain_difference_2x2
+#[kani::proof]
+#[kani::unwind(8)]
+#[kani::stub(std::vec::Vec::push, push_stub)]
+#[kani::stub(std::vec::Vec::new, vec_new_stub)]
+fn as_blocks_difference_2x2() {
+    let (a, aa) = any_as_blocks::<2>();
+    let (b, bb) = any_as_blocks::<2>();
+    let x: u32 = kani::any();
+    let ina = as_member(&aa, x);
+    let inb = as_member(&bb, x);
+    let d = a.difference(&b);
+    kani::cover!(ina && !inb);
+    kani::cover!(ina && inb);
+    kani::cover!(aa[1].1 == u32::MAX && bb[0].0 == 0);
+    assert!(as_canonical(&d));
+    assert_eq!(d.contains_asn(asn(x)), ina && !inb);
+    std::mem::forget((a, b, d));
+}
+
+fn collect_any_order_body<const N: usize>() -> usize {
+    let mut blocks = [B8 { lo: 0, hi: 0 }; N];
+    let mut i = 0;
+    while i < N {
+        blocks[i] = any_b8();
+        i += 1;
+    }
+    let x: u8 = kani::any();
+    let chain: OwnedChain<B8> = blocks.into_iter().collect();
+    let s = chain.as_slice();
+    let n = s.len();
+    assert!(canonical(s));
+    let mut want = false;
+    let mut i = 0;
+    while i < N {
+        if in_b8(&blocks[i], x) { want = true; }
+        i += 1;
+    }
+    assert_eq!(member(s, x), want);
+    std::mem::forget(chain);
+    n
+}
+
+/// @tier quick thorough
+/// @fn rpki::repository::resources::chain::OwnedChain::from_iter
+///   rpki::repository::resources::chain::from_iter_unsorted
+///   rpki::repository::resources::chain::merge_or_add_block
+/// @bounds OwnedChain<B8> (Item = u8); exactly 3 arbitrary blocks in ANY
+///   order (all 256^6 inputs with lo <= hi: sorted, reversed, nested,
+///   adjacent, duplicated, bridging, touching 0 or 255); one witness item;
+///   unwind 7
+/// @says collecting blocks in any order yields a chain in canonical form
+///   (ascending, pairwise disjoint and non-adjacent) that denotes exactly
+///   the union of the blocks
+/// @assume stubs: ipnsort -> panic (std's sort uses insertion sort below 21
+///   elements, the real insertion sort runs), Vec::new / Vec::push reserve 8
+///   slots once and store in place
+/// @out more than 3 (thorough: 4) blocks; block types other than the 8-bit
+///   instantiation (the AS / IP block impls of new/min/max/next are decided
+///   at full width separately)
+#[kani::proof]
+#[kani::unwind(7)]
+#[kani::stub(core::slice::sort::unstable::ipnsort, ipnsort_unreachable)]
+#[kani::stub(std::vec::Vec::push, push_stub)]
+#[kani::stub(std::vec::Vec::new, vec_new_stub)]
+fn collect_three_any_order() {
+    let n = collect_any_order_body::<3>();
+    kani::cover!(n == 1);
+    kani::cover!(n == 3);
+}
+
+/// @tier thorough
+/// @fn rpki::repository::resources::chain::OwnedChain::from_iter
+///   rpki::repository::resources::chain::from_iter_unsorted
+/// @bounds exactly 4 arbitrary blocks in any order; unwind 8
+/// @says see collect_three_any_order
+/// @assume stubs as in collect_three_any_order
+#[kani::proof]
+#[kani::unwind(8)]
+#[kani::stub(core::slice::sort::unstable::ipnsort, ipnsort_unreachable)]
+#[kani::stub(std::vec::Vec::push, push_stub)]
+#[kani::stub(std::vec::Vec::new, vec_new_stub)]
+fn collect_four_any_order_t() {
+    let n = collect_any_order_body::<4>();
+    kani::cover!(n == 1);
+    kani::cover!(n == 4);
+}
+
+/// @tier thorough
+/// @fn rpki::repository::resources::asres::AsBlocks::from_iter
+///   rpki::repository::resources::chain::OwnedChain::from_iter
+///   rpki::repository::resources::chain::from_iter_unsorted
+///   rpki::repository::resources::asres::AsBlock::new rpki::repository::resources::asres::AsBlock::next
+/// @bounds full-width AS numbers; exactly 3 arbitrary AS blocks (lo <= hi)
+///   in any order through the public collector; one witness ASN; unwind 7
+/// @says every AS set obtainable by collecting blocks in any order (with
+///   overlaps, adjacency, duplicates, blocks touching AS 0 or AS 4294967295)
+///   is canonical -- ascending, disjoint, non-adjacent, single ids stored as
+///   ids -- and denotes exactly the union
+/// @assume stubs as in collect_three_any_order
+#[kani::proof]
+#[kani::unwind(7)]
+#[kani::stub(core::slice::sort::unstable::ipnsort, ipnsort_unreachable)]
+#[kani::stub(std::vec::Vec::push, push_stub)]
+#[kani::stub(std::vec::Vec::new, vec_new_stub)]
+fn as_blocks_collect_three_any_order() {
+    let b: [(u32, u32); 3] = kani::any();
+    kani::assume(b[0].0 <= b[0].1 && b[1].0 <= b[1].1 && b[2].0 <= b[2].1);
+    let x: u32 = kani::any();
+    let mk = |k: usize| AsBlock::from((asn(b[k].0), asn(b[k].1)));
+    let set: AsBlocks = [mk(0), mk(1), mk(2)].into_iter().collect();
+    kani::cover!(b[0].1 == u32::MAX && b[1].0 == 0);
+    kani::cover!(b[2].0 < b[0].0 && b[0].1 < b[1].0 && b[2].1 >= b[1].0);
+    assert!(as_canonical(&set));
+    assert_eq!(set.contains_asn(asn(x)), as_member(&b, x));
+    std::mem::forget(set);
+}
+
+/// @tier exp
+/// @fn rpki::repository::resources::asres::AsBlocks::union
+///   rpki::repository::resources::chain::OwnedChain::from_iter
+/// @bounds full-width AS numbers; operands = arbitrary canonical AS sets of
+///   exactly 2 blocks each; one witness ASN; unwind 8
+/// @says the union of two AS sets is a canonical AS set denoting exactly
+///   the set union
+/// @assume stubs as in collect_three_any_order
+#[kani::proof]
+#[kani::unwind(8)]
+#[kani::stub(core::slice::sort::unstable::ipnsort, ipnsort_unreachable)]
+#[kani::stub(std::vec::Vec::push, push_stub)]
+#[kani::stub(std::vec::Vec::new, vec_new_stub)]
+fn as_blocks_union_2x2() {
+    let (a, aa) = any_as_blocks::<2>();
+    let (b, bb) = any_as_blocks::<2>();
+    let x: u32 = kani::any();
+    let u = a.union(&b);
+    kani::cover!(as_member(&aa, x) && !as_member(&bb, x));
+    kani::cover!(aa[0].0 > bb[1].1);
+    assert!(as_canonical(&u));
+    assert_eq!(u.contains_asn(asn(x)), as_member(&aa, x) || as_member(&bb, x));
+    std::mem::forget((a, b, u));
 }
